@@ -53,7 +53,15 @@ RULE = ('(a) random insertion sequences into the real SimpleGraph (nodes: ints, 
         '1e-12 * n * max|w|); (c) the arguments the wrapper hands to networkx (negated weights, maxcardinality) captured by '
         'monkeypatching and compared with the model, empty graph => empty set; (d) graphs built by the real '
         'PlanarMWPM/PlanarCMWPM/ToricMWPM/RotatedPlanarSMWPM/RotatedToricSMWPM decoders on random small syndromes, '
-        'captured at gt.mwpm, same check; (e) weight_to_int_fn branch + rounding with blossom5.infty patched. '
+        'captured at gt.mwpm, same check; (f) call HISTORIES on gt.mwpm / mwpm_networkx (mwpm_blossom5 on empty graphs) in '
+        'one process on one set of nodes: consecutive graphs equal except for weights that collide under Python\'s hash '
+        '(-1/-2, 0 / k(2^61-1), w / w + k(2^61-1), x / x*2^61 for floats, int/float/bool of equal value) or are equal after '
+        'conversion to binary64 (2^53 / 2^53+1), one re-written '
+        'weight, insertion order / orientation, the same SimpleGraph object after a further add_edge, the same graph '
+        'twice, empty graphs in between; after every call the returned set is updated in place (add / clear / discard / '
+        'union with earlier results); every answer judged by the verified monitors, sets returned earlier must keep '
+        'their value and identity is never re-used, a sample compared with the answer of a fresh process; '
+        '(e) weight_to_int_fn branch + rounding with blossom5.infty patched. '
         'non-trivial = graph with >= 4 nodes or an insertion sequence with a re-inserted pair')
 
 
@@ -753,6 +761,439 @@ def part_w2i(ctx):
         blossom5.infty = saved
 
 
+# ------------------------------------------------------------------------------------------ call histories
+# The property is quantified over graphs: gt.mwpm(G) must be a minimum-weight perfect matching of G whatever was matched
+# before in the same process and whatever the caller did with the sets returned earlier (they are the caller's).  A
+# history is a sequence of calls on ONE set of node objects; consecutive graphs are equal except for what a
+# fingerprint / memo / shared buffer would confuse: weights that differ but collide under Python's hash, insertion
+# order, orientation, number type, the same graph object updated in place, empty graphs in between.  After every call
+# the returned set is updated in place by the caller.  Every answer is judged by the verified monitors (checkops:
+# isPerfectMatching + weight = minPM) and, for a sample, compared with the answer of a process that never matched
+# anything before.
+
+HASH_M = 2 ** 61 - 1     # sys.hash_info.modulus of 64-bit CPython (asserted in part_history)
+
+# pairs (u, v), u != v in value, hash(u) == hash(v): a graph with weights from {u, v} and the graph with u <-> v swapped
+# on every edge have equal fingerprints hash(frozenset(items)) but different optima
+COLLIDING_PAIRS = [
+    (-1, -2), (-1, -2), (-1, -2), (-2.0, -1), (-1.0, -2.0), (-1, -1 - HASH_M),
+    (0, HASH_M), (HASH_M, 2 * HASH_M), (0, -HASH_M), (-HASH_M, HASH_M), (0, 3 * HASH_M),
+    (1, 1 + HASH_M), (1, 2 ** 61), (True, 2 ** 61), (3, 3 + HASH_M), (-5, -5 - HASH_M), (7, 7 + 4 * HASH_M),
+    (10 ** 20, 10 ** 20 + HASH_M), (10 ** 20, 10 ** 20 - 3 * HASH_M), (2 ** 64 + 11, 2 ** 64 + 11 + 2 * HASH_M),
+    (0.5, 2.0 ** 60), (1.5, 1.5 * 2.0 ** 61), (0.25, 0.25 * 2.0 ** 61), (-0.75, -0.75 * 2.0 ** 61),
+    (2.0, 2.0 ** 62), (2, 2.0 ** 62), (1.0, 2 ** 61),
+]
+# integer weights that differ in value (and hash) but are equal after conversion to binary64 / after rounding: what a
+# fingerprint built from float(w) or a rounded weight would confuse; all-int graphs are judged exactly
+NEAR_PAIRS = [(2 ** 53, 2 ** 53 + 1), (10 ** 20, 10 ** 20 + 1), (-(2 ** 60), -(2 ** 60) - 1), (2 ** 64, 2 ** 64 - 1)]
+# values that are EQUAL (the graphs are the same graph) but of different number types
+EQUAL_TYPES = [(0, 0.0, False, -0.0), (1, 1.0, True), (2, 2.0), (-1, -1.0), (2 ** 53, 2.0 ** 53), (-64, -64.0)]
+
+
+def hash_partner(rng, w):
+    """a weight of different VALUE with the same Python hash (None when none is known)"""
+    if isinstance(w, (bool, int)):
+        w = int(w)
+        if w == -1 and rng.random() < 0.5:
+            return -2
+        if w == -2 and rng.random() < 0.5:
+            return -1
+        k = rng.choice([1, 1, 2, 5]) * HASH_M          # |w| + k(2^61-1) with the sign of w has the hash of w
+        if w == 0:
+            return rng.choice([1, -1]) * k
+        if abs(w) > k and rng.random() < 0.5:
+            return w - k if w > 0 else w + k
+        return w + k if w > 0 else w - k
+    if isinstance(w, float) and w != 0.0 and abs(w) < 1e200:
+        if w == -1.0:
+            return -2.0
+        if w == -2.0:
+            return -1.0
+        return w * 2.0 ** 61 if abs(w) < 2.0 ** 70 else w / 2.0 ** 61
+    if isinstance(w, float) and w == 0.0:
+        return rng.choice([HASH_M, -HASH_M, 2 * HASH_M])
+    return None
+
+
+def parse_w(s):
+    import re
+    if s in ('True', 'False'):
+        return s == 'True'
+    return int(s) if re.fullmatch(r'-?\d+', s) else float(s)
+
+
+def all_int(ops):
+    return all(isinstance(w, (bool, int)) for _, _, w in ops)
+
+
+def hist_exact(ops):
+    return all_int(ops) or all(fr(w).denominator <= 16 and abs(w) < 2 ** 44 for _, _, w in ops)
+
+
+def graph_fn(name):
+    from qecsim import graphtools as gt
+    return getattr(gt, name)
+
+
+def build_step(step, nodes, prev_g):
+    """the graph object a step hands to the real code"""
+    from qecsim import graphtools as gt
+    ops = [(a, b, parse_w(w)) for a, b, w in step['ops_repr']]
+    if step.get('reuse') and prev_g is not None:
+        g = prev_g
+        for a, b, w in ops[len(ops) - step['reuse']:]:
+            g.add_edge(nodes[a], nodes[b], w)
+        return g, ops
+    if step['kind'] == 'dict':
+        return {(nodes[a], nodes[b]): w for a, b, w in ops}, ops
+    g = gt.SimpleGraph()
+    for a, b, w in ops:
+        g.add_edge(nodes[a], nodes[b], w)
+    return g, ops
+
+
+def apply_after(step, r, nodes, earlier):
+    """the caller's in-place use of the set it was given"""
+    act = step.get('after') or ['none']
+    if not isinstance(r, set):
+        return
+    if act[0] == 'add':
+        r.add((nodes[act[1]], nodes[act[2]]))
+    elif act[0] == 'clear':
+        r.clear()
+    elif act[0] == 'union':
+        for e in earlier:
+            r |= e
+    elif act[0] == 'discard' and r:
+        r.pop()
+
+
+def py_judge(ops, n, cm):
+    """the property on one answer, Python side (independent DP oracle): None or a description"""
+    if not ops:
+        if isinstance(cm, str):
+            return 'result is ' + cm
+        return None if cm == [] else 'the empty graph does not yield the empty matching: {} pair(s) returned'.format(len(cm))
+    return py_property(n, last_write(ops), cm)
+
+
+def eval_history(steps, node_kind, n):
+    """re-run a recorded history on the real code and evaluate the property at every call: (description, step index,
+    returned) of the first failing call, or None"""
+    import random
+    nodes = make_nodes(random.Random(0), n, node_kind)
+    ids = {x: i for i, x in enumerate(nodes)}
+    prev_g, earlier = None, []
+    for k, step in enumerate(steps):
+        g, ops = build_step(step, nodes, prev_g)
+        try:
+            with core.TimeLimit(20):
+                r = graph_fn(step['fn'])(g)
+        except core.TimeLimit.Expired:
+            return 'did not return within 20 s', k, 'timeout'
+        except Exception as ex:
+            return 'raised {!r}'.format(ex), k, 'exception'
+        cm = canon_mates(r, ids)
+        bad = py_judge(ops, n, cm)
+        if bad:
+            return bad, k, cm if isinstance(cm, str) else mates_wire(cm)
+        apply_after(step, r, nodes, earlier)
+        if isinstance(r, set):
+            earlier.append(r)
+        if ops and step['kind'] == 'simple':
+            prev_g = g
+    return None
+
+
+def single_call(step, node_kind, n):
+    """ONE call of the real code on the graph of `step`: (failure description or None, exact weight or None)"""
+    import random
+    nodes = make_nodes(random.Random(0), n, node_kind)
+    g, ops = build_step(dict(step, reuse=0), nodes, None)
+    cm = canon_mates(graph_fn(step['fn'])(g), {x: i for i, x in enumerate(nodes)})
+    bad = py_judge(ops, n, cm)
+    if bad or isinstance(cm, str):
+        return bad or cm, None
+    return None, py_weight([((min(p), max(p)), w) for p, w in last_write(ops).items()], cm)
+
+
+def found_history(steps, node_kind, n, r):
+    return {'what': 'call #{} ({}) of this history of matching calls in one process: {}'.format(
+                r[1] + 1, steps[r[1]]['fn'], r[0]),
+            'history': steps[:r[1] + 1], 'nodes': node_kind, 'n': n, 'returned': r[2],
+            'recipe': 'one process; nodes = make_nodes(Random(0), n, kind); per step: build the graph from ops_repr (a '
+                      'new SimpleGraph / dict, or further add_edge calls on the previous object when reuse > 0), call '
+                      'gt.<fn>(graph), then apply `after` to the returned set in place'}
+
+
+FRESH_CODE = r'''
+import json, os, sys
+from fractions import Fraction
+sys.path.insert(0, sys.argv[1])
+from qv.props import c13
+from qecsim import graphtools as gt   # imported, never called in this process: every answer comes from a forked child
+jobs = json.load(sys.stdin)
+out = []
+for job in jobs:
+    rd, wr = os.pipe()
+    pid = os.fork()
+    if pid == 0:
+        os.close(rd)
+        try:
+            bad, w = c13.single_call(job['step'], job['nodes'], job['n'])
+            res = {'bad': bad, 'w': str(w) if w is not None else None}
+        except BaseException as ex:
+            res = {'error': repr(ex)[:200]}
+        os.write(wr, json.dumps(res).encode())
+        os._exit(0)
+    os.close(wr)
+    buf = b''
+    while True:
+        chunk = os.read(rd, 65536)
+        if not chunk:
+            break
+        buf += chunk
+    os.close(rd)
+    os.waitpid(pid, 0)
+    try:
+        out.append(json.loads(buf.decode()))
+    except Exception:
+        out.append({'error': 'no-reply'})
+print(json.dumps(out))
+'''
+
+
+def fresh_answers(jobs):
+    """weights of gt.<fn>(graph) computed as the FIRST matching call of a process (one forked child per graph)"""
+    import os
+    import subprocess
+    import sys
+    harness = os.path.abspath(os.path.join(os.path.dirname(__file__), '..', '..'))
+    p = subprocess.run([sys.executable, '-c', FRESH_CODE, harness], input=json.dumps(jobs), text=True,
+                       stdout=subprocess.PIPE, stderr=subprocess.PIPE, timeout=900)
+    try:
+        return json.loads(p.stdout.strip().splitlines()[-1])
+    except Exception:
+        raise core.Infra('fresh-process helper failed: ' + p.stderr[-400:])
+
+
+def gen_history(rng, n):
+    """one history: list of steps (JSON-able); every non-empty graph has the same planted edge set"""
+    kind = rng.choice(['collide-all', 'collide-all', 'collide-all', 'collide-one', 'collide-one', 'equal', 'reuse',
+                       'one-weight', 'generic'])
+    shape = rng.choice(['complete', 'complete', 'sparse', 'few', 'path'])
+    steps = []
+
+    def step(ops, fn=None, kind_='simple', reuse=0, allow_dict=True):
+        fn = fn or rng.choice(['mwpm', 'mwpm', 'mwpm', 'mwpm_networkx'])
+        pairs = [frozenset((a, b)) for a, b, _ in ops]
+        if kind_ == 'simple' and len(set(pairs)) == len(pairs) and rng.random() < 0.2 and not reuse and allow_dict:
+            kind_ = 'dict'
+        act = rng.choice([['none'], ['add', rng.randrange(n), rng.randrange(n)], ['add', 0, 0], ['clear'], ['union'],
+                          ['discard'], ['union']])
+        steps.append({'fn': fn, 'kind': kind_, 'ops_repr': [[a, b, repr(w)] for a, b, w in ops], 'reuse': reuse,
+                      'after': act})
+
+    def empty():
+        steps.append({'fn': rng.choice(['mwpm', 'mwpm', 'mwpm_networkx', 'mwpm_blossom5']),
+                      'kind': rng.choice(['simple', 'dict']), 'ops_repr': [], 'reuse': 0,
+                      'after': rng.choice([['none'], ['add', rng.randrange(n), rng.randrange(n)], ['union'], ['union'],
+                                           ['clear']])})
+
+    def maybe_empty(p=0.35):
+        while rng.random() < p:
+            empty()
+
+    def reorder(ops):
+        """same graph: other insertion order, other orientations"""
+        ops = [(b, a, w) if rng.random() < 0.5 else (a, b, w) for a, b, w in ops]
+        rng.shuffle(ops)
+        return ops
+
+    maybe_empty()
+    if kind == 'collide-all':
+        u, v = rng.choice(COLLIDING_PAIRS + NEAR_PAIRS)
+        others = rng.choice([[], [], [-1.5, 7], [rng.randint(-3, 9)], [0.5 * rng.randint(-6, 12)]])
+        p_other = 0.3 if others else 0.0
+        edges = gen_planted(rng, n, shape, 'int', lambda: rng.choice(others) if rng.random() < p_other else
+                            rng.choice([u, v]))
+        swap = lambda w: (v if (w == u and type(w) is type(u)) else u if (w == v and type(w) is type(v)) else w)  # noqa: E731
+        g1 = list(edges)
+        g2 = [(a, b, swap(w)) for a, b, w in edges]
+        seq = rng.choice([[g1, g2], [g1, g2, g1], [g2, g1], [g1, g1, g2, g2], [g1, g2, g2, g1]])
+        for gi, g in enumerate(seq):
+            step(g if rng.random() < 0.6 else reorder(g), fn='mwpm' if gi < 2 else None)
+            maybe_empty(0.2)
+    elif kind == 'collide-one':
+        wk = rng.choice(['negative', 'smallint', 'int', 'dyadic', 'tied', 'zero', 'bigint'])
+        edges = gen_planted(rng, n, shape, wk)
+        cur = list(edges)
+        step(cur, fn='mwpm')
+        for _ in range(rng.randint(1, 4)):
+            i = rng.randrange(len(cur))
+            a, b, w = cur[i]
+            p = hash_partner(rng, w)
+            if p is None:
+                continue
+            cur = list(cur); cur[i] = (a, b, p)
+            maybe_empty(0.2)
+            step(cur if rng.random() < 0.6 else reorder(cur), fn='mwpm')
+    elif kind == 'equal':
+        wk = rng.choice(['smallint', 'tied', 'zero', 'negative', 'dyadic'])
+        edges = gen_planted(rng, n, shape, wk)
+        step(edges)
+        for _ in range(rng.randint(1, 3)):
+            maybe_empty(0.2)
+            g = reorder(edges) if rng.random() < 0.7 else list(edges)
+            if rng.random() < 0.6:      # equal values, other number types
+                def retype(w):
+                    for fam in EQUAL_TYPES:
+                        if any(w == x and type(w) is type(x) for x in fam):
+                            return rng.choice(fam)
+                    return float(w) if isinstance(w, int) and abs(w) < 2 ** 53 and rng.random() < 0.5 else w
+                g = [(a, b, retype(w)) for a, b, w in g]
+            step(g)
+    elif kind == 'reuse':
+        wk = rng.choice(WKINDS)
+        draw = weight_sampler(rng, wk)
+        edges = gen_planted(rng, n, shape, wk, draw)
+        cur = list(edges)
+        step(cur, fn='mwpm', allow_dict=False)
+        for _ in range(rng.randint(1, 4)):
+            a, b, w = rng.choice(edges)
+            if rng.random() < 0.5:
+                a, b = b, a
+            neww = rng.choice([w + rng.choice([-1000, 1000, -1, 1]), draw(), hash_partner(rng, w) or 0])
+            cur = cur + [(a, b, neww)]
+            step(cur, reuse=1)        # the SAME graph object, one more add_edge
+            maybe_empty(0.15)
+    elif kind == 'one-weight':
+        wk = rng.choice(WKINDS)
+        draw = weight_sampler(rng, wk)
+        edges = gen_planted(rng, n, shape, wk, draw)
+        cur = list(edges)
+        step(cur)
+        for _ in range(rng.randint(1, 4)):
+            i = rng.randrange(len(cur)); a, b, w = cur[i]
+            cur = list(cur); cur[i] = (a, b, w + rng.choice([-1000, 1000, -1, 1, 0.5]))
+            maybe_empty(0.2)
+            step(cur if rng.random() < 0.6 else reorder(cur))
+    else:
+        for _ in range(rng.randint(2, 5)):
+            wk = rng.choice(WKINDS)
+            step(gen_planted(rng, n, rng.choice(['complete', 'sparse', 'few']), wk))
+            maybe_empty(0.4)
+    maybe_empty(0.5)
+    return kind, steps
+
+
+def part_history(ctx):
+    import sys
+    from qecsim import graphtools as gt
+    rng = ctx.rng
+    if sys.hash_info.modulus != HASH_M:
+        ctx.count('history.skipped', 'hash modulus {}'.format(sys.hash_info.modulus))
+    for u, v in COLLIDING_PAIRS:
+        if not (hash(u) == hash(v) and u != v):
+            ctx.count('history.noncolliding_pair', repr((u, v)))
+    all_results = []          # every set ever returned stays referenced: object identities are never recycled
+    fresh_jobs = []
+    n_fresh = ctx.scale(250, 2500)
+    stop = False
+    for it in range(ctx.scale(320, 3200)):
+        if stop:
+            break
+        n = rng.choice([4, 4, 4, 6, 6, 8])
+        nk = rng.choice(['tuple', 'tuple', 'int', 'obj', 'mixed'])
+        hkind, steps = gen_history(rng, n)
+        nodes = make_nodes(rng, n, nk)
+        ids = {x: i for i, x in enumerate(nodes)}
+        ctx.count('history.kind', hkind); ctx.count('history.calls', len(steps)); ctx.count('history.nodes', nk)
+        prev_g, earlier = None, []       # earlier: [set, snapshot]
+        for k, st in enumerate(steps):
+            g, ops = build_step(st, nodes, prev_g)
+            before = list(g.items())
+            meta = {'part': 'history', 'steps': steps, 'upto': k, 'nodes': nk, 'n': n, 'history_kind': hkind}
+            try:
+                with core.TimeLimit(20):
+                    r = graph_fn(st['fn'])(g)
+            except core.TimeLimit.Expired:
+                ctx.monitor_fail('gt.{} did not return within 20 s at call #{} of a history'.format(st['fn'], k + 1),
+                                 found_history(steps, nk, n, ('timeout', k, 'timeout')), key='mwpm.timeout')
+                break
+            except Exception as ex:
+                ctx.monitor_fail('gt.{} raised {!r} at call #{} of a history (the graph has a perfect matching)'.format(
+                    st['fn'], ex, k + 1), found_history(steps, nk, n, (repr(ex), k, 'exception')), key=None)
+                break
+            ctx.count('history.fn', st['fn']); ctx.count('history.after', (st.get('after') or ['none'])[0])
+            if list(g.items()) != before:
+                ctx.monitor_fail('gt.{} modified the graph it was given'.format(st['fn']),
+                                 found_history(steps, nk, n, ('graph argument modified', k, '')), key=None)
+                stop = True
+                break
+            cm = canon_mates(r, ids)
+            # -- verdict of the verified monitors on this answer
+            if not ops:
+                impl = 'empty' if isinstance(r, (set, frozenset)) and len(r) == 0 else 'nonempty:' + repr(cm)[:60]
+                ctx.case('c13 nxin _', impl, nontrivial=False, meta=meta)
+            else:
+                lw_items = [((min(p), max(p)), w) for p, w in last_write(ops).items()]
+                check_case(ctx, 'history', 'c13 checkops ' + ops_wire(ops), lw_items, cm, n, hist_exact(ops), meta)
+            # -- freshness: the caller owns what it gets
+            for j, (old, snap) in enumerate(earlier):
+                if old != snap:
+                    ctx.monitor_fail('a matching returned earlier in the history changed during a later gt.{} call'.format(
+                        st['fn']), found_history(steps, nk, n, ('result of call #{} changed'.format(j + 1), k, '')))
+                    stop = True
+                    break
+            if stop:
+                break
+            if isinstance(r, set) and any(r is old for old in all_results):
+                # the very set object handed out before (which its owner may have updated since): show what that means
+                # for the property — the caller of the earlier call adds a pair, the same graph is matched again
+                bad = py_judge(ops, n, cm)
+                demo = list(steps[:k + 1])
+                if not bad:
+                    demo[k] = dict(st, after=['add', 0, 0])
+                    demo.append(dict(st, reuse=0, after=['none']))
+                    rr = eval_history(demo[k:], nk, n)     # continue on the current process state
+                    bad = rr and 'after the caller added a pair to the set returned by the previous call: ' + rr[0]
+                ctx.monitor_fail('gt.{} handed out the very set object it had returned before; {}'.format(
+                    st['fn'], bad or 'no wrong answer could be derived'),
+                    {'history': demo, 'nodes': nk, 'n': n, 'call': k + 1}, key=None if bad else 'mwpm.result-aliased')
+                stop = True
+                break
+            if nk in ('tuple', 'int') and len(fresh_jobs) < n_fresh and rng.random() < 0.5 and ops and \
+                    not isinstance(cm, str):
+                lw_items = [((min(p), max(p)), w) for p, w in last_write(ops).items()]
+                w = py_weight(lw_items, cm)
+                fresh_jobs.append(({'step': dict(st, reuse=0, after=['none']), 'nodes': nk, 'n': n},
+                                   w, hist_exact(ops), meta, max([abs(fr(x)) for _, _, x in ops] + [Fraction(1)]) * n))
+            apply_after(st, r, nodes, [e[0] for e in earlier])
+            if isinstance(r, set):
+                earlier.append([r, set(r)])
+                all_results.append(r)
+            if ops and st['kind'] == 'simple':
+                prev_g = g
+    # -- the same graphs matched by a process that never matched anything before
+    if fresh_jobs:
+        answers = fresh_answers([j[0] for j in fresh_jobs])
+        for (job, w, exact, meta, scale), ans in zip(fresh_jobs, answers):
+            ctx.evaluations += 1
+            if ans.get('error') or ans.get('bad') or ans.get('w') is None or w is None:
+                ctx.count('history.fresh', 'undecided' if ans.get('error') else 'fresh-bad-or-nonedge')
+                continue      # the fresh answer itself is wrong / unusable: the direct monitors report that
+            fw = Fraction(ans['w'])
+            ok = (fw == w) if exact else abs(fw - w) <= Fraction(REL_TOL) * scale
+            ctx.count('history.fresh', 'agree' if ok else 'differ')
+            if not ok:
+                hist = found_history(meta['steps'], meta['nodes'], meta['n'],
+                                     ('returns a matching of weight {} where the same call as the first matching call '
+                                      'of a fresh process returns weight {}'.format(w, fw), meta['upto'], ''))
+                ctx.monitor_fail(hist.pop('what'), hist, key=None)
+                break
+
+
 # ------------------------------------------------------------------------------------------ entry points
 
 def run(ctx):
@@ -777,6 +1218,7 @@ def run(ctx):
     n2 = ctx.evaluations
     part_decoders(ctx)
     part_exhaustive4(ctx)
+    part_history(ctx)
     n3 = ctx.evaluations
     part_w2i(ctx)
     ctx.explored = {
@@ -918,6 +1360,11 @@ def search(m):
                             'minimum {})'.format(meta.get('decoder'), m['op'].split(' ')[-1], f.get('pm'), f.get('w'),
                                                  f.get('min')),
                     'graph': meta.get('graph'), 'returned': m['op'].split(' ')[-1]}
+    if part == 'history':
+        r = eval_history(meta['steps'][:meta['upto'] + 1], meta['nodes'], meta['n'])
+        if r:
+            return found_history(meta['steps'], meta['nodes'], meta['n'], r)
+        return None
     if part == 'empty':
         return {'what': 'empty graph: gt.mwpm result is ' + m['impl'], 'graph': '{}'}
     return None
@@ -928,7 +1375,11 @@ def replay(ctx, path):
     for v in body.get('violations', []):
         ce = v.get('counterexample') or {}
         inp = ce.get('input') if 'input' in ce else ce
-        if isinstance(inp, dict) and inp.get('ops'):
+        if isinstance(inp, dict) and inp.get('history'):
+            r = eval_history(inp['history'], inp.get('nodes', 'tuple'), int(inp.get('n', 4)))
+            print('replay history ->', r)
+            bad += bool(r)
+        elif isinstance(inp, dict) and inp.get('ops'):
             ops = typed_ops(inp)
             r = eval_property_on_ops(ops)
             print('replay ops ->', r)
